@@ -97,6 +97,10 @@ var c13Extra = []Prog{
 	{"[intersect(l, l), l]", "map", false, false},
 	{"string(l) + string(union(l, [1])) + string(l)", "map", false, false},
 	{"l[2] + len(diff(l, [2]))", "struct", false, false},
+	{"[0.25: \"a\", 0.5: \"b\", 0.75: \"c\", 1.5: \"d\", 1.25: \"e\"]", "none", false, false},
+	{"string([2.5: true, 2: false, 3.25: true, 2.75: false])", "none", false, false},
+	{"[x: 1, x + 0.5: 2, x - 0.25: 3, n: 4]", "map", false, false},
+	{"[-1: \"a\", -1.5: \"b\", -0.5: \"c\", 1e3: \"d\", 0.001: \"e\"]", "none", false, false},
 	{"[[x, 1], [2, 3]]", "map", false, false},
 	{"[\"a\": [x], \"b\": [2], \"c\": [3]]", "struct", false, false},
 	{"{id: [n], tags: [\"k\": 1, \"j\": 2], deep: {inner: [s]}}", "map", false, false},
@@ -270,6 +274,7 @@ func (h *Hist13) keys() []pkey {
 }
 
 type hist13Result struct {
+	RawEdits  int
 	Reentries int
 	GCBefore  int
 	Viol     *Violation
@@ -306,6 +311,7 @@ func runHist13(h *Hist13, x *evalCtx) hist13Result {
 		reused := map[string]interface{}{}
 		rawT := map[string]*types.Env{}
 		rawV := map[string]*val.Env{}
+		rawHas := map[string]string{}
 		// "inplace": ONE host object per typing class whose contents are overwritten before
 		// every use (what a host does with a long-lived request struct / map): anything
 		// cached by the identity of the host object sees stale contents
@@ -374,16 +380,39 @@ func runHist13(h *Hist13, x *evalCtx) hist13Result {
 					}
 					return e, "", nil
 				}
-				e, ok := rawV[name]
+				// one raw *val.Env per SHAPE class: asked for other contents of the same shape, the
+				// value trees inside it are updated in place through the library's own setters
+				// (containers keep their identity, as when a host edits a long-lived environment)
+				class := shapeClass(name)
+				e, ok := rawV[class]
 				if !ok {
 					var err error
 					e, err = conv.ValEnvOf(envMakers[name]())
 					if err != nil {
 						return envMakers[name](), "", nil
 					}
-					rawV[name] = e
+					rawV[class] = e
+					rawHas[class] = name
 				} else {
 					res.Reused++
+					if rawHas[class] != name {
+						if want, err := conv.ValEnvOf(envMakers[name]()); err == nil {
+							want.ForEach(func(k string, nv *val.Val) {
+								if old, ok := e.Get(k); ok && valAssign(old, nv) {
+									return
+								}
+								e.Put(k, nv)
+							})
+							rawHas[class] = name
+							res.RawEdits++
+							// results handed out earlier may share structure with this environment's
+							// values; the host has just edited those values itself, so such results
+							// legitimately changed: stop holding them to their first rendering
+							for gi := range got {
+								got[gi].held = nil
+							}
+						}
+					}
 				}
 				return e, "", nil
 			}
@@ -724,6 +753,73 @@ func genHist13(r *rng) *Hist13 {
 	return h
 }
 
+// shapeClass: environments whose value trees have the same shape (lengths, key sets, types).
+func shapeClass(name string) string {
+	switch name {
+	case "map", "struct", "map3", "struct3":
+		return "std-shape"
+	case "map2", "struct2":
+		return "std2-shape"
+	case "alt", "altstruct":
+		return "alt-shape"
+	}
+	return name
+}
+
+// valAssign makes dst hold the contents of src IN PLACE using the library's setters
+// (ListVal.Set, MapVal.Put, ObjVal.Put); false when the shapes differ.
+func valAssign(dst, src *val.Val) bool {
+	if dst == nil || src == nil || dst.Type.Kind != src.Type.Kind {
+		return false
+	}
+	switch dst.Type.Kind {
+	case types.KList:
+		d, s := dst.List(), src.List()
+		if len(d.V) != len(s.V) {
+			return false
+		}
+		for i := range d.V {
+			if !valAssign(d.V[i], s.V[i]) {
+				d.Set(i, s.V[i])
+			}
+		}
+		return true
+	case types.KMap:
+		d, s := dst.Map(), src.Map()
+		if len(d.V) != len(s.V) {
+			return false
+		}
+		for k := range s.V {
+			if _, ok := d.V[k]; !ok {
+				return false
+			}
+		}
+		for k, nv := range s.V {
+			if !valAssign(d.V[k], nv) {
+				d.V[k] = nv
+			}
+		}
+		return true
+	case types.KObj:
+		d, s := dst.Obj(), src.Obj()
+		if len(d.V) != len(s.V) {
+			return false
+		}
+		fs := d.Type.Obj().Fields
+		for i := range d.V {
+			nv, ok := s.Get(fs[i].Name)
+			if !ok {
+				return false
+			}
+			if !valAssign(d.V[i], nv) {
+				d.Put(fs[i].Name, nv)
+			}
+		}
+		return true
+	}
+	return false // scalars and optionals are replaced by the caller
+}
+
 func indexOf(xs []string, x string) int {
 	for i, y := range xs {
 		if y == x {
@@ -807,6 +903,7 @@ func (c13) Batch(seed uint64, wid, batch, count int, deadline time.Time, emit fu
 		c["fault_knob_runs"] += int64(res.Sim.FaultsFired["knob"])
 		c["fault_env_reuse"] += int64(res.Reused)
 		c["fault_reentrant_invocations"] += int64(res.Reentries)
+		c["fault_raw_env_edited_in_place"] += int64(res.RawEdits)
 		c["sim_time_covered_s"] += abs64(res.Sim.ClockEnd - h.Sim.ClockBase)
 		for _, op := range h.Ops {
 			if op.StdoutFail {
